@@ -60,6 +60,16 @@ def generate(rng, tier):
         e, t = MG.schema_pair(rng) if hasattr(MG, "schema_pair") else (rng.choice(objs or docs), rng.choice(objs or docs))
         cases.append({"lines": [f"schema-copy {rng.choice(['track', 'track', 'simple'])} " + G.hx(e) + " " + G.hx(t)], "cls": "schema-copy", "kind": "schema",
                       "ntexts": 1, "nontrivial": True})
+    # ParseSchema over objects that were emptied through the API and still own a children block / capacity / lookup map
+    for _ in range(150 if quick else 10000):
+        e, t = MG.schema_pair(rng)
+        cases.append({"lines": [f"schema-prep{rng.choice([1, 2, 3])} {rng.choice(['track', 'track', 'simple'])} " + G.hx(e) + " " + G.hx(t)], "cls": "schema-prep",
+                      "kind": "schema", "ntexts": 1, "nontrivial": True})
+    for e, t in [(b'{"o":{"a":1,"b":2},"p":{"x":{"y":1}},"s":"v"}', b'{"o":{"a":5,"c":6},"p":{"x":7},"s":"w"}'), (b'{"o":{"a":1}}', b'{"o":{}}'),
+                 (b'{"o":{"a":1,"b":2,"c":3,"d":4,"e":5,"f":6,"g":7,"h":8,"i":9}}', b'{"o":{"z":[1,2,3]}}')]:
+        for prep in (1, 2, 3):
+            for alloc in ("track", "simple", "pool"):
+                cases.append({"lines": [f"schema-prep{prep} {alloc} " + G.hx(e) + " " + G.hx(t)], "cls": "schema-prep", "kind": "schema", "ntexts": 1, "nontrivial": True})
     for e, t in [(b'{"name":"old","info":{"city":"x","n":1}}', b'{"name":"a much longer new name","info":{"city":"new city","n":2}}'),
                  (b'{"s":"v"}', b'{"s":"w"}'), (b'"root"', b'"other root string"'), (b'{"a":{"b":{"c":"deep"}}}', b'{"a":{"b":{"c":"deeper \\n escaped"}}}'),
                  (b'{"k":[1,2]}', b'{"k":["now","strings"]}'), (b'{"k":null}', b'{"k":{"new":"object","with":["strings"]}}')]:
